@@ -635,6 +635,22 @@ pub fn run(out: &mut Out, tier: &str, seed: u64, prop: &str) {
                 Some(back) => if back != got { out.oracle_fail("C01", "an environment does not survive its serde round trip", input.clone()); },
                 None => out.oracle_fail("C01", "an environment cannot be serialized and read back", input.clone()),
             }
+            {
+                // the JSON form uses the PEP 508 names, each with the text of that field (an environment is exchanged between
+                // processes and tools in this form: the round trip inside one process cannot see two crossed names)
+                let named: Vec<(&str, &str)> = vec![("implementation_name", &c2.strs[0]), ("implementation_version", &c2.vers[0]), ("os_name", &c2.strs[1]), ("platform_machine", &c2.strs[2]),
+                    ("platform_python_implementation", &c2.strs[3]), ("platform_release", &c2.strs[4]), ("platform_system", &c2.strs[5]), ("platform_version", &c2.strs[6]),
+                    ("python_full_version", &c2.vers[1]), ("python_version", &c2.vers[2]), ("sys_platform", &c2.strs[7])];
+                let literal: serde_json::Value = serde_json::Value::Object(named.iter().map(|(k, v)| (k.to_string(), serde_json::Value::String(v.to_string()))).collect());
+                match serde_json::to_value(&got) {
+                    Ok(j) => if j != literal { out.oracle_fail("C01", "the JSON form of an environment does not carry each field under its PEP 508 name", serde_json::json!({"env": c2.line(), "json": j, "expected": literal})); },
+                    Err(_) => out.oracle_fail("C01", "an environment cannot be serialized", input.clone()),
+                }
+                match serde_json::from_value::<pep508_rs::MarkerEnvironment>(literal.clone()) {
+                    Ok(e) => if e != want { out.oracle_fail("C01", "an environment read from JSON written with the PEP 508 names is not the environment with those values", serde_json::json!({"env": c2.line(), "json": literal})); },
+                    Err(err) => out.oracle_fail("C01", &format!("an environment written with the PEP 508 names cannot be read: {err}"), serde_json::json!({"json": literal})),
+                }
+            }
             if serde_json::to_value(&got).ok().and_then(|v| serde_json::from_value::<pep508_rs::MarkerEnvironment>(v).ok()).as_ref() != Some(&got) {
                 out.oracle_fail("C01", "an environment does not survive serialization to an owned JSON value", input.clone());
             }
